@@ -58,9 +58,27 @@ namespace osmium { namespace io { namespace detail {
         max_entities_per_block = 8000
     };
 
+    class EntryTable {
+
+        int m_entries = 0;
+
+    public:
+
+        void add(const char*) {
+            ++m_entries;
+        }
+
+        std::size_t size() const noexcept {
+            return m_entries + 1;   // number of entries, not bytes
+        }
+
+    };
+
     class PrimitiveBlock {
 
         std::string m_data;
+        EntryTable m_table;
+        std::string m_unaccounted;
         int m_type = 0;
         int m_count = 0;
 
@@ -75,7 +93,17 @@ namespace osmium { namespace io { namespace detail {
         }
 
         std::size_t size() const noexcept {
-            return m_data.size();
+            // pbf-block-size-counts-every-serialised-part: m_table counted in entries, m_unaccounted not counted at all
+            return m_data.size() + m_table.size();
+        }
+
+        const std::string& group_data() {
+            m_data += m_unaccounted;
+            return m_data;
+        }
+
+        void write_table(std::string& out) {
+            out += static_cast<char>(m_table.size());
         }
 
         std::string& group() noexcept {
@@ -108,9 +136,15 @@ namespace osmium { namespace io { namespace detail {
 
     public:
 
+        PrimitiveBlock* m_block = nullptr;
+
         std::string operator()(const std::string& header) {
             const auto size = static_cast<uint32_t>(header.size());
             std::string output;
+            if (m_block) {
+                m_block->write_table(output);
+                output += m_block->group_data();
+            }
             output += static_cast<char>( size         & 0xffU);  // blob-header-length-byte-order: little-endian
             output += static_cast<char>((size >>  8U) & 0xffU);
             output += static_cast<char>((size >> 16U) & 0xffU);
